@@ -156,17 +156,23 @@ Section Commands.
     end.
 
   (* ---- verify -dh ------------------------------------------------------------------------------------- *)
-  Definition dh_formats (hs : list lhist) (ofmt : option fmt) : list fmt :=
+  Definition root_formats (gens : list gen) : list fmt :=
+    flat_map (fun g => match g_root g with Some es => map e_fmt es | None => [] end) gens.
+  (* the formats the result is judged by: the given one, else those of the root history's root hashes, else c4 *)
+  Definition dh_judged (hs : list lhist) (ofmt : option fmt) : list fmt :=
     match ofmt with
     | Some f => [f]
     | None =>
-        match dedup_fmts (flat_map (fun h => flat_map (fun g => match g_root g with
-                                                                 | Some es => map e_fmt es
-                                                                 | None => []
-                                                                 end) (lh_gens h)) hs) with
+        match dedup_fmts (root_formats (lh_gens (root_hist hs))) with
         | [] => match fmt_of_name dh_default_format with Some f => [f] | None => [] end
         | fs => fs
         end
+    end.
+  (* the formats that are calculated: additionally those recorded by nested histories *)
+  Definition dh_formats (hs : list lhist) (ofmt : option fmt) : list fmt :=
+    match ofmt with
+    | Some f => [f]
+    | None => dedup_fmts (dh_judged hs ofmt ++ flat_map (fun h => root_formats (lh_gens h)) hs)
     end.
   Definition dh_entry_ok (e : entry) (cs : text * text) : bool :=
     text_eqb (e_digest e) (fst cs) && match e_struct e with Some s => text_eqb s (snd cs) | None => false end.
@@ -205,7 +211,8 @@ Section Commands.
         let failed := dedup_fmts (sub_fail ++ root_fail) in
         let code := match failed with
                     | [] => 0%Z
-                    | _ => if Nat.eqb (length failed) (length fmts) then exit_verification_directories_failed else 0%Z
+                    | _ => if forallb (fun f => memf f failed) (dh_judged hs ofmt)
+                           then exit_verification_directories_failed else 0%Z
                     end in
         let calc := flat_map (fun p => flat_map (fun f => match get C t p with
                                                           | Some d => match dirhash Hb matches C spec f p d with
